@@ -57,10 +57,11 @@ const (
 	opT2JMissingRequired
 	opKitexHeaderReuse
 	opHTTPSameRequestTwice
+	opDOMTemplateCopy
 	nOps
 )
 
-var opNames = []string{"t2j", "j2t", "t2j-http", "t2j-truncated", "j2t-malformed", "dom-load-marshal", "cut", "get-by-path", "lookup", "p2j-j2p", "j2p-malformed", "p2j-truncated", "j2t-http", "proto-generic", "http-empty-body", "http-fallback-rejected", "http-fallback-valid", "t2j-missing-required", "t2j-kitex-headers-then-buffer-reuse", "http-same-request-twice"}
+var opNames = []string{"t2j", "j2t", "t2j-http", "t2j-truncated", "j2t-malformed", "dom-load-marshal", "cut", "get-by-path", "lookup", "p2j-j2p", "j2p-malformed", "p2j-truncated", "j2t-http", "proto-generic", "http-empty-body", "http-fallback-rejected", "http-fallback-valid", "t2j-missing-required", "t2j-kitex-headers-then-buffer-reuse", "http-same-request-twice", "dom-template-copy"}
 
 type Op struct {
 	Kind int `json:"k"`
@@ -200,6 +201,7 @@ type env struct {
 	ref      proto.Message
 	fieldRaw map[int16][]byte
 	hfix     *httpFixture
+	template generic.PathNode // loaded once, recursively; shared read-only: every user works on its own CopyTo copy
 }
 
 // run executes one operation and returns "" or a description of what is wrong; results the library returned are appended to keep.
@@ -437,6 +439,23 @@ func (e *env) run(op Op, keep *[]held) (msg string) {
 		if out, err := e.tj.Do(ctx, e.hfix.resp, in); err == nil {
 			return fmt.Sprintf("t2j accepts a message whose outer struct lacks a required field: %s", out)
 		}
+	case opDOMTemplateCopy:
+		// the shared template is copied, the copy is overwritten, the template must still hold the value
+		var cp generic.PathNode
+		e.template.CopyTo(&cp)
+		cout, err := cp.Marshal(&generic.Options{})
+		if err != nil || !bytes.Equal(cout, e.enc) {
+			return fmt.Sprintf("Marshal of a CopyTo copy of the template: err=%v, %s", err, tm.DecodeCompare(tm.STRUCT, cout, cs.V))
+		}
+		cp.ResetValue()
+		tout, err := e.template.Marshal(&generic.Options{})
+		if err != nil {
+			return "Marshal of the shared template fails: " + err.Error()
+		}
+		*keep = append(*keep, held{"template Marshal result", tout, append([]byte(nil), tout...)})
+		if !bytes.Equal(tout, e.enc) {
+			return "the shared template changed after a copy of it was reset: " + tm.DecodeCompare(tm.STRUCT, tout, cs.V)
+		}
 	case opHTTPSameRequestTwice:
 		// one request object serves two conversions (a retry): both must give what a single one gives
 		body := `{"bod":"hello"}`
@@ -556,6 +575,10 @@ func check(c *pbt.Ctx, cs Case) {
 	}
 	e := &env{cs: cs, comp: comp, cut: cut, enc: tm.Encode(cs.V), tj: t2j.NewBinaryConv(conv.Options{}), jt: j2t.NewBinaryConv(conv.Options{}),
 		pj: p2j.NewBinaryConv(conv.Options{}), jp: j2p.NewBinaryConv(conv.Options{}), fieldRaw: map[int16][]byte{}}
+	e.template = generic.PathNode{Node: generic.NewNode(thrift.STRUCT, append(make([]byte, 0, len(e.enc)+16), e.enc...))}
+	if err := e.template.Load(true, &generic.Options{}); err != nil {
+		c.Failf("harness-template", "Load of the template fails: %v", err)
+	}
 	if e.hfix, err = newHTTPFixture(); err != nil {
 		c.Failf("harness-idl", "http fixture IDL rejected: %v", err)
 	}
@@ -638,7 +661,7 @@ func check(c *pbt.Ctx, cs Case) {
 
 var Prop = pbt.Register(pbt.Prop[Case]{
 	Name: "TestSharedUse",
-	Rule: "generated Thrift descriptor + conforming message + JSON document, generated proto3 schema + message, and a drawn history: 1..8 goroutines, each with a drawn list of operations (t2j, j2t, t2j HTTPConv.Do, j2t HTTPConv.Do, proto DOM Load+Marshal, t2j on a truncated message, j2t on a truncated document, DOM Load+Marshal, MarshalTo, GetByPath, descriptor lookups, p2j+j2p, j2p on malformed documents incl. ones that fail while an unknown root member is skipped, p2j on a truncated message; on a fixed annotated service: an empty-body GET whose required field comes from the query, a request rejected because a required field has no source under ReadHttpValueFallback+Traceback, a complete request under the same options, t2j of a response whose outer struct lacks a required field while holding a nested struct, one request object converted twice (an api.body string member), t2j with Kitex http encoding delivering header values out of a buffer the caller then overwrites) sharing descriptors, converter objects and read-only inputs, in a -race binary; every successful operation is checked against the reference oracles (reference encoder, strict JSON reader, protobuf-go), failing inputs must fail, every result handed out is compared with its copy after all goroutines finished, inputs and descriptor dump must be unchanged; a data race reported by the race detector is a violation; non-trivial = >= 2 goroutines and >= 6 operations",
+	Rule: "generated Thrift descriptor + conforming message + JSON document, generated proto3 schema + message, and a drawn history: 1..8 goroutines, each with a drawn list of operations (t2j, j2t, t2j HTTPConv.Do, j2t HTTPConv.Do, proto DOM Load+Marshal, t2j on a truncated message, j2t on a truncated document, DOM Load+Marshal, MarshalTo, GetByPath, descriptor lookups, p2j+j2p, j2p on malformed documents incl. ones that fail while an unknown root member is skipped, p2j on a truncated message; on a fixed annotated service: an empty-body GET whose required field comes from the query, a request rejected because a required field has no source under ReadHttpValueFallback+Traceback, a complete request under the same options, t2j of a response whose outer struct lacks a required field while holding a nested struct, one request object converted twice (an api.body string member), a shared recursively loaded DOM template that is copied with CopyTo, the copy being reset, t2j with Kitex http encoding delivering header values out of a buffer the caller then overwrites) sharing descriptors, converter objects and read-only inputs, in a -race binary; every successful operation is checked against the reference oracles (reference encoder, strict JSON reader, protobuf-go), failing inputs must fail, every result handed out is compared with its copy after all goroutines finished, inputs and descriptor dump must be unchanged; a data race reported by the race detector is a violation; non-trivial = >= 2 goroutines and >= 6 operations",
 	Gen: func(t *rapid.T) Case {
 		cfg := tm.GenCfg{MaxDepth: 2, KeyKinds: tjson.SupportedKeys, Reqs: true, Aliases: true, ValidUTF8: true, FiniteDoubles: true, RootStruct: true, WireOrder: true, MaxWidth: 4}
 		u := tm.GenUniverse(t, cfg)
